@@ -14,7 +14,7 @@ import lib
 import universe as U
 from lib import gz, gtext, glist, gbool, gopt, gpair
 
-THEOREMS = ['C01_xml_rt', 'C01_xml_rt_spyne', 'C01_call_fidelity']
+THEOREMS = ['C01_xml_rt', 'C01_xml_rt_spyne']
 
 XSI = 'http://www.w3.org/2001/XMLSchema-instance'
 FUEL = 40
